@@ -32,11 +32,25 @@ pub enum PlanP {
     A { plan: PlanA },
     /// search nonces until the first query-point candidate is a 2n-th root of unity
     Q { len: u32, key: Hx, nonce_seed: u64, rand: Hx, max_trials: u64, #[serde(default)] exact_order: bool },
+    /// refinement of the aggregators' verification step: an ARBITRARY leader share (data ‖ f(1) ‖ g(1) ‖ h(1) ‖ h at
+    /// the odd 2n-th roots; elements as little-endian u32, reduced mod p at execution) and a query point; the verifier
+    /// share must equal direct Lagrange evaluation of the three polynomials those values define, whatever the share
+    R { len: u32, share: Vec<u32>, r: u32 },
 }
 
 fn modpow(mut b: u64, mut e: u64, p: u64) -> u64 {
     let mut r = 1u64;
     b %= p;
+    if p < (1 << 32) {
+        while e > 0 {
+            if e & 1 == 1 {
+                r = r * b % p;
+            }
+            b = b * b % p;
+            e >>= 1;
+        }
+        return r;
+    }
     while e > 0 {
         if e & 1 == 1 {
             r = (r as u128 * b as u128 % p as u128) as u64;
@@ -65,6 +79,26 @@ fn gen_plan(seed: u64, tier: Tier) -> PlanP {
         // lengths 2^k - 1, 2^k and 2^k + 1: the domain size (2 * next_power_of_two(len + 1)) changes at 2^k
         let len = ((1u32 << k) as i64 + *rng.pick(&[-1i64, -1, 0, 0, 1])) as u32;
         return PlanP::Q { len, key: Hx(rng.bytes(32)), nonce_seed: rng.u64(), rand: Hx(rng.bytes(64)), max_trials: 8_000_000, exact_order: rng.chance(1, 2) };
+    }
+    if rng.chance(1, 8) {
+        let len: u32 = match rng.below(3) {
+            0 => *rng.pick(&[1u32, 2, 3, 4, 5, 7, 8, 15, 16, 31, 32, 63]),
+            1 => 1 + rng.below(20) as u32,
+            _ => 1 + rng.below(130) as u32,
+        };
+        let n = (len as usize + 1).next_power_of_two();
+        let plen = len as usize + 3 + n;
+        let p = P32 as u32;
+        let style = rng.below(4);
+        let share: Vec<u32> = (0..plen)
+            .map(|_| match style {
+                0 => rng.u32() % p,
+                1 => *rng.pick(&[0u32, 1, p - 1, 2]),
+                2 => if rng.chance(1, 3) { rng.u32() % p } else { 0 },
+                _ => rng.u32() % p,
+            })
+            .collect();
+        return PlanP::R { len, share, r: if rng.chance(1, 6) { *rng.pick(&[0u32, 2, p - 1, 3]) } else { rng.u32() % p } };
     }
     let mode = rng.below(10);
     let small = mode >= 4;
@@ -218,8 +252,113 @@ fn exec_q(len: u32, key: &[u8], nonce_seed: u64, rand: &[u8], max_trials: u64, e
     Ok(())
 }
 
+/// Value at `r` of the polynomial of degree < m that takes the values `v` at the m-th roots of unity w^0 .. w^(m-1):
+/// sum_i v_i * w^i (r^m - 1) / (m (r - w^i)), on plain integers mod p. `r` must not be one of the nodes.
+fn lagrange_at(v: &[u64], w: u64, r: u64, p: u64) -> u64 {
+    let m = v.len() as u64;
+    // p < 2^32: products of reduced values fit u64
+    let mul = |a: u64, b: u64| (a % p) * (b % p) % p;
+    let num = (modpow(r, m, p) + p - 1) % p;
+    let minv = modpow(m % p, p - 2, p);
+    let mut acc = 0u64;
+    let mut wi = 1u64;
+    for vi in v {
+        if *vi != 0 {
+            let d = (r + p - wi) % p;
+            let t = mul(mul(*vi % p, wi), modpow(d, p - 2, p));
+            acc = (acc + t) % p;
+        }
+        wi = mul(wi, w);
+    }
+    mul(mul(acc, num), minv)
+}
+
+fn exec_r(len: u32, share: &[u32], r: u32, ctx: &mut Ctx) -> Result<(), String> {
+    use prio::field::NttFriendlyFieldElement;
+    let p = P32 as u64;
+    let vdaf = Prio2::new(len as usize).map_err(|e| e.to_string())?;
+    let dim = len as usize;
+    let n = (dim + 1).next_power_of_two();
+    let plen = dim + 3 + n;
+    ctx.sig.str("C19.R").u64(len as u64).u64(share.iter().filter(|x| **x != 0).count().min(3) as u64);
+    ctx.nontrivial = true;
+    ctx.counters.inc("c19.verifier_refinement_runs");
+    if share.len() != plen {
+        return Err(format!("plan share has {} elements, the instance wants {plen}", share.len()));
+    }
+    let sh: Vec<u64> = share.iter().map(|x| *x as u64 % p).collect();
+    // a query point that is not a 2n-th root of unity (the protocol never evaluates at a node)
+    let mut r = r as u64 % p;
+    while modpow(r, 2 * n as u64, p) == 1 {
+        r = (r + 1) % p;
+    }
+    // the library's principal roots of unity of order n and 2n (constants of the field; all arithmetic below is ours)
+    let logn = n.trailing_zeros() as usize;
+    let wn = u32::from(FieldPrio2::root(logn).ok_or("no root of order n")?) as u64;
+    let w2n = u32::from(FieldPrio2::root(logn + 1).ok_or("no root of order 2n")?) as u64;
+    if modpow(wn, n as u64, p) != 1 || (n > 1 && modpow(wn, n as u64 / 2, p) == 1) || modpow(w2n, 2, p) != wn {
+        return Err("the field's advertised roots of unity are not what the reference assumes".into());
+    }
+    let (data, rest) = sh.split_at(dim);
+    let (f0, g0, h0, packed) = (rest[0], rest[1], rest[2], &rest[3..]);
+    for (is_leader, agg) in [(true, 0usize), (false, 1usize)] {
+        let mut fv = vec![0u64; n];
+        fv[0] = f0;
+        fv[1..=dim].copy_from_slice(data);
+        let mut gv = vec![0u64; n];
+        gv[0] = g0;
+        for (i, d) in data.iter().enumerate() {
+            gv[i + 1] = if is_leader { (*d + p - 1) % p } else { *d };
+        }
+        let mut hv = vec![0u64; 2 * n];
+        hv[0] = h0;
+        for (k, x) in packed.iter().enumerate() {
+            hv[2 * k + 1] = *x;
+        }
+        let want = [lagrange_at(&fv, wn, r, p), lagrange_at(&gv, wn, r, p), lagrange_at(&hv, w2n, r, p)];
+        let mut wb = Vec::new();
+        for x in want {
+            wb.extend_from_slice(&(x as u32).to_le_bytes());
+        }
+        // the share object the aggregator holds: arbitrary elements are a legitimate leader share on the wire
+        let lib_share: Share<FieldPrio2, 32> = Share::Leader(sh.iter().map(|x| FieldPrio2::from(*x as u32)).collect());
+        let got = guard("Prio2::verify_init_with_query_rand", || vdaf.verify_init_with_query_rand(FieldPrio2::from(r as u32), &lib_share, is_leader));
+        match got {
+            Err(v) => {
+                ctx.fail(v);
+                return Ok(());
+            }
+            Ok(Err(e)) => {
+                ctx.fail(Violation::new("C19.verifier", "verifier|refused", format!("len={len}: the verification step refused a well-formed share (aggregator {agg}): {e}")));
+                return Ok(());
+            }
+            Ok(Ok((_, vs))) => {
+                let gb = vs.get_encoded().map_err(|e| e.to_string())?;
+                ctx.trace.bytes(&gb);
+                if gb != wb {
+                    let which = (0..3).find(|k| gb.get(4 * k..4 * k + 4) != wb.get(4 * k..4 * k + 4)).map(|k| ["f(r)", "g(r)", "h(r)"][k]).unwrap_or("length");
+                    ctx.fail(Violation::new("C19.verifier", format!("verifier|{which}"), format!("len={len} (n={n}), aggregator {agg}: {which} of the verifier share differs from direct evaluation at r={r} of the polynomial through the share's values")));
+                    return Ok(());
+                }
+            }
+        }
+    }
+    ctx.counters.inc("c19.verifier_refinement_ok");
+    Ok(())
+}
+
 fn exec(plan: &PlanP, counters: &mut Counters) -> Result<RunOut, String> {
     match plan {
+        PlanP::R { len, share, r } => {
+            let r = guard_run(|| {
+                let mut ctx = Ctx::new(counters, ACCEPT);
+                exec_r(*len, share, *r, &mut ctx).map(|_| ctx.finish())
+            });
+            match r {
+                Ok(x) => x,
+                Err(e) => Err(e),
+            }
+        }
         PlanP::A { plan } => exec_plan_a("C19", ACCEPT, plan, counters),
         PlanP::Q { len, key, nonce_seed, rand, max_trials, exact_order } => {
             let r = guard_run(|| {
@@ -285,11 +424,23 @@ impl Check for CheckPrio2 {
         let Ok(p) = serde_json::from_value::<PlanP>(plan.clone()) else { return Vec::new() };
         match p {
             PlanP::A { plan } => shrink_plan_a(&plan).into_iter().map(|x| serde_json::to_value(PlanP::A { plan: x }).unwrap()).collect(),
+            PlanP::R { len, share, r } => {
+                // zero the elements one region at a time, then one by one
+                let mut out = Vec::new();
+                for i in 0..share.len() {
+                    if share[i] != 0 {
+                        let mut s2 = share.clone();
+                        s2[i] = 0;
+                        out.push(serde_json::to_value(PlanP::R { len, share: s2, r }).unwrap());
+                    }
+                }
+                out
+            }
             _ => Vec::new(),
         }
     }
     fn rule(&self) -> String {
-        "world-A runs of Prio2 (input lengths 1..300 and 2^k-2, 2^k-1, 2^k): honest 0/1 batches with reordering, crash/restart and seeded aggregation schedules vs element-wise sum; Byzantine vectors with one non-binary entry sharded by the library itself; 1..2 alterations of every leader element class, helper seed bytes, verifier-share elements, dropped / extra shares; robust + strict + must-reject with 3-key confirmation (per-key soundness error ~2n/2^32). Plus seeded nonce searches (lengths 2^12-1..2^15-1) for a first query candidate that is a 2n-th root of unity, checking the verifier share equals the one at the first non-root candidate; distinct as C02".into()
+        "world-A runs of Prio2 (input lengths 1..300 and 2^k-2, 2^k-1, 2^k): honest 0/1 batches with reordering, crash/restart and seeded aggregation schedules vs element-wise sum; Byzantine vectors with one non-binary entry sharded by the library itself; 1..2 alterations of every leader element class, helper seed bytes, verifier-share elements, dropped / extra shares; robust + strict + must-reject with 3-key confirmation (per-key soundness error ~2n/2^32). Plus refinement of the verification step: arbitrary leader-share vectors (lengths 1..130 incl. 2^k-1 and 2^k; random, sparse and boundary elements) and query points, the verifier share (f(r), g(r), h(r)) of either role compared with direct Lagrange evaluation on plain integers of the polynomials the share's values define (h through all 2n points). Plus seeded nonce searches (lengths 2^12-1..2^15-1) for a first query candidate that is a 2n-th root of unity, checking the verifier share equals the one at the first non-root candidate; distinct as C02".into()
     }
     fn assumptions(&self) -> Vec<String> {
         vec![
